@@ -16,6 +16,10 @@ Decided on every CFG path of the pipeline implementation (all stage shapes in dr
                    only under 'op is engaged').
   C27.wait-exit    LimitGatedScheduler::Impl::wait leaves its loops only when outstanding_ was read
                    zero or an exception was captured.
+  C27.wait-order   Pipe::wait(): a stage is drained before the stage after it is waited on (its own
+                   LimitGatedScheduler / generator completion wait dominates pipeNext_.wait()): a
+                   downstream wait that starts while upstream items can still arrive may return at a
+                   momentary outstanding_ == 0 and strand a late item in its local queue.
   C27.runners      the number of stage-runner tasks launched by the generator and single-stage
                    Pipe::execute has lower bound 1 (a zero-thread pool is a supported configuration).
 """
@@ -226,6 +230,22 @@ def run(R):
             R.ob("C27.wait-exit", fn, t.get("loc") or fn.loc, not bad, "the loop is left only when outstanding_ == 0 or an exception was captured" if not bad else "loop exit(s) %s with items outstanding and no exception" % ",".join(bad),
                  sitekey="loop@outstanding", why="pipeline() may return only after every item has passed through every stage")
     R.need("C27.wait-exit", n, 2, "outstanding_ loops in LimitGatedScheduler::Impl::wait")
+
+    # ---- wait order -----------------------------------------------------------------------------------------
+    n = 0
+    for fn in F.fns:
+        if not re.search(r"^dispenso::detail::(TransformPipe|Pipe)::wait$", fn.qname):
+            continue
+        nxt = [(p, e) for p, e in fn.events() if e.get("k") == "call" and e.get("name") == "wait" and (field_name(lvalue_path(F, fn, e.get("obj"))) or "").endswith("::pipeNext_")]
+        if not nxt:
+            continue
+        own = [(p, e) for p, e in fn.events() if e.get("k") == "call" and e.get("name") == "wait" and
+               ((field_name(lvalue_path(F, fn, e.get("obj"))) or "").endswith("TransformPipe::tasks_") or (field_name(lvalue_path(F, fn, e.get("obj"))) or "").endswith("::completion_"))]
+        n += 1
+        ok = bool(own) and all(fn.dominates(own[0][0], p) for p, _ in nxt)
+        R.ob("C27.wait-order", fn, nxt[0][1], ok, "own stage drained before the next stage is waited on" if ok else "the next stage is waited on before this stage has drained: late items can be stranded downstream",
+             sitekey=fn.qname.split("::")[-2] + "::wait", why="every item must pass through every later stage before pipeline() returns")
+    R.need("C27.wait-order", n, 2, "Pipe::wait functions with a downstream pipe")
 
     # ---- number of runners >= 1 ---------------------------------------------------------------------------------
     n = 0
